@@ -22,12 +22,12 @@ extern hval g_args[MAXARGS];
 extern int g_nargs;
 
 static inline uint64_t aN(int i) { return i < g_nargs ? g_args[i].n : 0; }
-static inline int64_t aZ(int i) { return i < g_nargs ? (g_args[i].neg ? -(int64_t)g_args[i].n : (int64_t)g_args[i].n) : 0; }
+static inline int64_t aZ(int i) { return i < g_nargs ? (g_args[i].neg ? (int64_t)(0u - g_args[i].n) : (int64_t)g_args[i].n) : 0; }
 static inline unsigned char *aH(int i) { return g_args[i].h; }
 static inline size_t aHlen(int i) { return i < g_nargs ? g_args[i].hlen : 0; }
 static inline size_t aLlen(int i) { return i < g_nargs ? g_args[i].llen : 0; }
 static inline uint64_t aLu(int i, size_t k) { return g_args[i].lu[k]; }
-static inline int64_t aLz(int i, size_t k) { return g_args[i].lneg[k] ? -(int64_t)g_args[i].lu[k] : (int64_t)g_args[i].lu[k]; }
+static inline int64_t aLz(int i, size_t k) { return g_args[i].lneg[k] ? (int64_t)(0u - g_args[i].lu[k]) : (int64_t)g_args[i].lu[k]; }
 
 void out_n(uint64_t v);
 void out_z(int64_t v);          /* prints like Val.vint: negative with '-', else unsigned */
